@@ -5,12 +5,16 @@
 // replaced INSIDE the expansion by a co-routine stub: the j-th call
 //   1. advances the oracle's expansion step machine (refmodels::blowfish::Expander) to its j-th encryption request,
 //   2. checks that the implementation passes the same (l, r) as the oracle would encrypt,
-//   3. checks that the implementation's ENTIRE state (18 P words, 1024 S words) at this call equals the oracle's state
-//      (so the real encryptions -- functions of (state, l, r) -- would have received identical inputs on both sides),
+//   3. checks that the implementation's P array (all 18 words) and the pair of entries stored after the previous call
+//      equal the oracle's; at the calls that begin a new table (j = 0, 9, 137, 265, 393) the ENTIRE state (18 P words,
+//      1024 S words) is compared,
 //   4. hands the same fresh arbitrary 64-bit value to both sides as the result, which the oracle stores by its own rule.
-// After the run the final states must agree and exactly 521 calls must have happened.  By induction over j this decides:
-// key cycling, the 18 P XORs, the all-zero first block, chaining, (eksblowfish) salt cycling and XOR order, and the store
-// order -- for the real encryption function, whose conformance on an arbitrary state is decided in conf.rs.
+// After the run the complete final states must agree and exactly 521 calls must have happened.  This decides: key cycling,
+// the 18 P XORs, the all-zero first block, chaining, (eksblowfish) salt cycling and XOR order, and the store order -- for the
+// real encryption function, whose conformance on an arbitrary state is decided in conf.rs.
+// Not compared: S-box entries other than the newest pair at calls other than the five checkpoints (comparing all 1042
+// words at each of the 521 calls needs ~88 MB of CBMC memory per call: > 14 GB before a third of the run).  A transient
+// change of such an entry that is undone before the next checkpoint would go unnoticed; nothing else can.
 use super::prelude::*;
 use crate::Blowfish;
 use byteorder::{ByteOrder, BE, LE};
@@ -28,20 +32,47 @@ pub mod co {
 }
 
 pub unsafe fn state_eq<T: ByteOrder>(c: &Blowfish<T>) -> bool {
+    // by-value copies first: comparing through the reference costs a pointer-validity obligation per element under
+    // CBMC (the first version of this harness needed > 14 GB during symbolic execution)
+    let p: [u32; 18] = c.p;
+    let s: [[u32; 256]; 4] = c.s;
+    let op: [u32; 18] = co::ORC.p;
+    let os: [[u32; 256]; 4] = co::ORC.s;
     let mut ok = true;
     let mut i = 0;
     while i < 18 {
-        ok &= c.p[i] == co::ORC.p[i];
+        ok &= p[i] == op[i];
         i += 1;
     }
     let mut b = 0;
     while b < 4 {
         i = 0;
         while i < 256 {
-            ok &= c.s[b][i] == co::ORC.s[b][i];
-            i += 1;
+            ok &= (s[b][i] == os[b][i]) & (s[b][i + 1] == os[b][i + 1]) & (s[b][i + 2] == os[b][i + 2]) & (s[b][i + 3] == os[b][i + 3]);
+            i += 4;
         }
         b += 1;
+    }
+    ok
+}
+
+/// P array in full and the entry pair stored by the previous call (entries 2(n-1), 2(n-1)+1 of P1..P18,S1..S4).
+pub unsafe fn cheap_eq<T: ByteOrder>(c: &Blowfish<T>) -> bool {
+    let p: [u32; 18] = c.p;
+    let op: [u32; 18] = co::ORC.p;
+    let mut ok = true;
+    let mut i = 0;
+    while i < 18 {
+        ok &= p[i] == op[i];
+        i += 1;
+    }
+    let n = co::ORC.n;
+    if n > 9 {
+        let e = 2 * (n - 1) - 18;
+        let b = e / 256;
+        let k = e % 256;
+        ok &= c.s[b][k] == co::ORC.block[0] && c.s[b][k + 1] == co::ORC.block[1];
+        ok &= co::ORC.s[b][k] == co::ORC.block[0] && co::ORC.s[b][k + 1] == co::ORC.block[1];
     }
     ok
 }
@@ -53,9 +84,15 @@ pub fn stub_encrypt<T: ByteOrder>(this: &Blowfish<T>, lr: [u32; 2]) -> [u32; 2] 
             co::OK = false;
             return [0, 0];
         }
+        let n = co::ORC.n;
+        // order matters: the checks on the stored pair use ORC.block = previous result, before arg_salted changes it
+        if n == 0 || n == 9 || n == 137 || n == 265 || n == 393 {
+            co::OK &= state_eq(this);
+        } else {
+            co::OK &= cheap_eq(this);
+        }
         let a = if co::SALTED { co::ORC.arg_salted(&co::SALT, co::SLEN) } else { co::ORC.arg_plain() };
         co::OK &= a[0] == lr[0] && a[1] == lr[1];
-        co::OK &= state_eq(this);
         let y: [u32; 2] = [kani::any(), kani::any()];
         co::ORC.put(y);
         return y;
@@ -101,7 +138,7 @@ macro_rules! new_harness {
     };
 }
 
-//@ harness name=bf_new_w_be prop=C09,C20 variants=blowfish tier=quick bits=464 stub=1 est=300 desc="W: Blowfish<BE>::new_from_slice(key[..len]), len symbolic 0..=57: Err exactly outside 4..=56; otherwise the state equals Schneier's key expansion from the pi digits (key bytes cycled, 18 P XORs, 521 chained encryptions, store order), with the block encryption uninterpreted per call and the full implementation state compared with the oracle's at every call"
+//@ harness name=bf_new_w_be prop=C09,C20 variants=blowfish tier=quick bits=464 stub=1 est=300 desc="W: Blowfish<BE>::new_from_slice(key[..len]), len symbolic 0..=57: Err exactly outside 4..=56; otherwise the state equals Schneier's key expansion from the pi digits (key bytes cycled, 18 P XORs, 521 chained encryptions, store order), with the block encryption uninterpreted per call; arguments, P array and newest stored pair compared with the oracle's at every call, the full state at calls 0/9/137/265/393 and at the end"
 new_harness!(bf_new_w_be, BE);
 //@ harness name=bf_new_w_le prop=C09,C20 variants=blowfish tier=quick bits=464 stub=1 est=300 desc="W: BlowfishLE::new_from_slice: same key expansion as Blowfish<BE> (keying does not depend on the block byte order), len symbolic 0..=57, co-routine stub as bf_new_w_be"
 new_harness!(bf_new_w_le, LE);
